@@ -456,6 +456,46 @@ def _constant_table(seed_value):
     return '\n'.join(lines) + '\n'
 
 
+def _many_names_source(n):
+    """A function with n distinct renamable locals and a module with n renamable globals: needs more fresh names than any small module."""
+    lines = ['def many_locals(first_argument):']
+    for k in range(n):
+        lines.append('    local_value_%d = first_argument + %d' % (k, k))
+        lines.append('    first_argument = local_value_%d * 2' % k)
+    lines.append('    return first_argument')
+    for k in range(n):
+        lines.append('global_value_%d = many_locals(%d)' % (k, k))
+        lines.append('print(global_value_%d, global_value_%d)' % (k, k))
+    return '\n'.join(lines) + '\n'
+
+
+PROBES = [(_many_names_source(12), dict(api.DEFAULTS)), (_many_names_source(70), dict(api.DEFAULTS)), (_many_names_source(70), dict(api.DEFAULTS, rename_globals=True)),
+          (_many_names_source(400), dict(api.DEFAULTS)), (_many_names_source(200), dict(api.DEFAULTS, rename_globals=True)),
+          (SOURCES[0], dict(api.DEFAULTS, rename_globals=True)), (SOURCES[7], dict(api.DEFAULTS, rename_globals=True))]
+
+
+def probe_process_state():
+    """After concurrent calls in this process: results of plain sequential calls must still equal those of a pristine process."""
+    for src, opts in PROBES:
+        got = outcome(lambda: api.minify(src, opts))
+        want = ref_call(dict(src_req(src), api='minify', opts=opts, pl=[], pg=[]))
+        if got != want:
+            return ('process-state-after-concurrent-calls-differs-from-fresh-process',), {'got': str(got)[:300], 'fresh': str(want)[:300]}
+    return None
+
+
+def canned_concurrency(rounds=5):
+    """A fixed set of fine-grained interleavings of small modules (used by the replay of a probe failure)."""
+    for r in range(rounds):
+        # every round needs more fresh names than anything minified in this process before (process-wide name state grows under contention)
+        progs_ = [(_many_names_source(130 + 40 * r), dict(api.DEFAULTS)), (_many_names_source(131 + 40 * r), dict(api.DEFAULTS)), (_constant_table(5), dict(api.DEFAULTS, rename_globals=True))]
+        turns = [(i % 3, 1 + (i + r) % 3) for i in range(60)]
+        try:
+            run_threads(progs_, turns)
+        except api.MinifyTimeout:
+            pass
+
+
 def run_schedules(ctx):
     pool = SOURCES[:8] + [_constant_table(v) for v in (1, 2, 3, 5)] * 2
 
@@ -464,8 +504,12 @@ def run_schedules(ctx):
         n = draw(st.integers(2, 3))
         programs = []
         for _ in range(n):
-            if draw(st.booleans()):
+            k = draw(st.integers(0, 4))
+            if k < 2:
                 src = draw(st.sampled_from(pool))
+            elif k == 2:
+                # needs more distinct new names than small modules do
+                src = _many_names_source(draw(st.integers(20, 120)))
             else:
                 src = draw(progs.programs(profile='shape', level=(3, 12), size=8)).source
             programs.append((src, draw(api.option_sets())))
@@ -481,9 +525,19 @@ def run_schedules(ctx):
             ctx.fail({'programs': [list(p) for p in case['programs']], 'turns': [list(t) for t in case['turns']]}, sig, obs)
 
     hyp_run(ctx, 'schedules', cases(), prop, ctx.n(600, 12000))
+    # the interleaved calls are over: what they left behind in the process must not show in later calls. A few canned rounds first, each
+    # needing more fresh names in two racing threads than anything this process has minified before.
+    canned_concurrency()
+    r = probe_process_state()
+    ctx.case(sha('probe-after-schedules', ctx.index), True, classes=['probe-after-concurrency'])
+    if r is not None:
+        ctx.fail_direct({'probe_after_concurrency': True}, r[0], r[1])
 
 
 def replay(case):
+    if case.get('probe_after_concurrency'):
+        canned_concurrency()
+        return probe_process_state()
     if 'turns' in case:
         sig, obs, _ = oracle_schedule({'programs': [tuple(p) for p in case['programs']], 'turns': [tuple(t) for t in case['turns']]})
         return (sig, obs) if sig else None
